@@ -119,6 +119,8 @@ def gen_case(seed, run, tier):
         variant = "big"  # more than ten species: two-digit variable names in the integer program
     elif rs.random() < 0.06:
         variant = "one_sided"  # a component present on one side only, in several species of an under-determined reaction
+    elif rs.random() < 0.08:
+        variant = "det"  # random compositions with subscripts up to 9: the unique ray has coefficients in the hundreds
     for _attempt in range(200):
         n = rw.randint(2, 6) if variant not in ("multi", "one_sided") else rw.randint(4, 6)
         if variant == "big":
@@ -145,6 +147,29 @@ def gen_case(seed, run, tier):
         break
     else:
         raise core.HarnessError("could not generate a balanced case")
+    if variant == "det":
+        for _attempt in range(300):
+            n = rw.randint(3, 5)
+            elements = sorted(rw.sample(sorted(Z2SYM), n - 1))
+            comps = [{z: rw.randint(0, 9) for z in elements} for _ in range(n)]
+            comps = [{z: v for z, v in c.items() if v} for c in comps]
+            if any(not c for c in comps):
+                continue
+            A_ = [[Fraction(c.get(z, 0)) for c in comps] for z in elements]
+            basis_ = NS.nullspace(A_, n)
+            if len(basis_) != 1:
+                continue
+            v_ = NS.primitive(basis_[0])
+            if any(t == 0 for t in v_) or all(t > 0 for t in v_) or all(t < 0 for t in v_) or max(abs(t) for t in v_) > 2000:
+                continue
+            order_ = [i for i in range(n) if v_[i] < 0] + [i for i in range(n) if v_[i] > 0]
+            comps = [comps[i] for i in order_]
+            nr = sum(1 for t in v_ if t < 0)
+            x = [abs(v_[i]) for i in order_]
+            with_charge = False
+            break
+        else:
+            raise core.HarnessError("could not generate a determinant-type case")
     formula_mode = rs.random() < 0.65 and variant not in ("fractional", "electron", "empty_species")
     species = []
     used = set()
@@ -288,6 +313,8 @@ def gen_case(seed, run, tier):
             calls.append({"mode": m, "dup": False})
             if rs.random() < 0.2:
                 calls[-1]["psym"] = rs.choice(["plain", "posint", "named"])
+            if rs.random() < 0.12:
+                calls[-1]["dup"] = True  # allow_duplicates=True although nothing is duplicated
     if rf.random() < 0.35:
         for c in calls:
             if c["mode"] == "none":
@@ -459,6 +486,8 @@ def judge(case, call, rec, faulted):
     reac, prod = list(case["reac"]), list(case["prod"])
     shared = [k for k in reac if k in prod]
     sigbase = {"mode": mode, "dup": dup}
+    if dup and not shared:
+        dup = False  # the flag must not matter when no species is on both sides
     if shared and not dup:
         # species on both sides without allow_duplicates: must be refused
         if rec["outcome"] == "ok":
